@@ -56,9 +56,10 @@ func alphabet(keys []string, thorough bool) []kvh.Op {
 		kvh.Op{Kind: "getmany", Keys: []string{"zz", a}},
 		kvh.Op{Kind: "getmany", Keys: []string{last, a, "zz"}},
 	)
-	pats := []string{"*", "a*", "?", "[ab]", "b", "zz*", "/*"}
+	// {a,b} and [!a] are gobwas/glob syntax (the documented one) that the Redis MATCH dialect does not share
+	pats := []string{"*", "a*", "?", "[ab]", "b", "zz*", "/*", "{a,b}", "[!a]"}
 	if thorough {
-		pats = append(pats, "{a,b}", "??", "[!a]")
+		pats = append(pats, "??", "[^a]", "{a,/c}")
 	}
 	for _, p := range pats {
 		ops = append(ops, kvh.Op{Kind: "list", Pat: p})
